@@ -53,7 +53,13 @@ fn operand_in(k: u8) -> TxIn {
     for (i, b) in txid.iter_mut().enumerate() {
         *b = (i as u8).wrapping_mul(5).wrapping_add(t.wrapping_mul(37)).wrapping_add(1);
     }
-    TxIn::new(&txid, 0x0100 + v as u32, &Script::from_bytes(&[0x51 + k]).unwrap(), Some(0x01020300 + q as u32))
+    let mut i = TxIn::new(&txid, 0x0100 + v as u32, &Script::from_bytes(&[0x51 + k]).unwrap(), Some(0x01020300 + q as u32));
+    if k == 1 || k == 3 {
+        // extended annotations are not part of the serialisation: they must never influence a sighash
+        i.set_satoshis(0x7777);
+        i.set_locking_script(&Script::from_bytes(&[0x52, 0x53]).unwrap());
+    }
+    i
 }
 
 /// Output operands: 0 and 1 differ in everything; 2 = operand 0 with another value; 3 = operand 0 with another script.
